@@ -7,7 +7,7 @@ from manifest_table import CHECKS, NOT_APPLICABLE, HOOK_COMMITS
 VERIF = os.path.dirname(os.path.dirname(os.path.abspath(__file__)))
 m = {
     "version": 1,
-    "setup_cmd": "cd /verif/harness && CARGO_TARGET_DIR=/verif/target CARGO_NET_OFFLINE=true RUSTFLAGS=-Awarnings cargo build --offline --release && CARGO_TARGET_DIR=/verif/target CARGO_NET_OFFLINE=true RUSTFLAGS=-Awarnings cargo build --offline",
+    "setup_cmd": "sh /verif/tools/setup.sh",
     "hooks": {
         "guard": "lipe_find_parser_verif",
         "enable": "none needed: every monitor observes at the public API boundary (parse / compile / scheme / io_map); no source hooks were added to /repo",
